@@ -186,6 +186,20 @@ def run(rep, tier, seed):
                     r0 = lang.quiet(Rodas, nd0, [0, 0.2], y00, Opt(rtol=1e-6, atol=1e-9))
                     r2 = lang.quiet(Rodas, nd2, [0, 0.2], y02, Opt(rtol=1e-6, atol=1e-9))
                     pairs = [("implicit_trapezoid", a0.Y[-1], a2.Y[-1], 1e-8), ("Rodas", r0.Y[-1], r2.Y[-1], 1e-4)]
+                    # conditioning baseline: the same declaration from a start perturbed in the 11th digit.  A trajectory that
+                    # amplifies that by more than a tenth of the comparison tolerance (blow-up, 1/(a-b) terms of random models)
+                    # cannot be compared across term orderings: renaming changes sympy's summation order by an ulp
+                    import copy as _copy
+                    y0p = _copy.deepcopy(y00); y0p.array[:] = y0p.array * (1.0 + 1e-11)
+                    ap = lang.quiet(implicit_trapezoid, nd0, [0, 0.2], y0p, Opt(step_size=0.05, ite_tol=1e-11))
+                    rp = lang.quiet(Rodas, nd0, [0, 0.2], y0p, Opt(rtol=1e-6, atol=1e-9))
+                    kept = []
+                    for (sname, v0, v2, tol), vp in zip(pairs, (ap.Y[-1], rp.Y[-1])):
+                        if np.allclose(np.asarray(v0.array), np.asarray(vp.array), rtol=tol / 10, atol=tol / 10):
+                            kept.append((sname, v0, v2, tol))
+                        else:
+                            stats["ill_conditioned_skipped"] = stats.get("ill_conditioned_skipped", 0) + 1
+                    pairs = kept
         except Exception as ex:  # noqa
             continue
         stats["solver_runs"] += 1
